@@ -554,7 +554,6 @@ func NewApp(
 		slashingtypes.ModuleName,
 		govtypes.ModuleName,
 		enttypes.ModuleName,
-		crisistypes.ModuleName,
 		ibcexported.ModuleName,
 		genutiltypes.ModuleName,
 		evidencetypes.ModuleName,
@@ -570,6 +569,10 @@ func NewApp(
 		beacontypes.ModuleName,
 		wrkchaintypes.ModuleName,
 		streamtypes.ModuleName,
+		// crisis asserts every registered invariant in its InitGenesis: it must come after all
+		// modules whose invariants range over imported state (the stream escrow invariant failed
+		// on any genesis containing a stream with a remaining deposit)
+		crisistypes.ModuleName,
 	}
 
 	app.ModuleManager.SetOrderInitGenesis(genesisModuleOrder...)
